@@ -57,7 +57,14 @@ def mode_configs(prop, tier, sd):
         elif m == "upd":
             n = len(UPD_FIELDS)
             if thorough:
-                pairs = [(UPD_FIELDS[i], UPD_FIELDS[(i + o) % n]) for i in range(n) for o in (1, 5)]
+                # every field with two partners between 2 plugins; 4 pairs (rotating with the seed) among 3 plugins
+                # (a 3-plugin configuration is 31 660 scenarios: all 34 of them took an hour per property)
+                for i in range(n):
+                    for o in (1, 5):
+                        cfgs.append(("upd-%s+%s" % (UPD_FIELDS[i], UPD_FIELDS[(i + o) % n]), m, 2, 1,
+                                     [UPD_FIELDS[i], UPD_FIELDS[(i + o) % n]]))
+                pairs = [(UPD_FIELDS[(sd + 4 * k) % n], UPD_FIELDS[(sd + 4 * k + 3) % n]) for k in range(4)]
+                pairs.append(("pids", "cpu.shares"))
                 np_ = 3
             else:
                 off = 1 + sd % (n - 1)
@@ -65,7 +72,7 @@ def mode_configs(prop, tier, sd):
                 pairs.append(("pids", "cpu.shares"))
                 np_ = 2
             for a, b in pairs:
-                cfgs.append(("upd-%s+%s" % (a, b), m, np_, 1, [a, b]))
+                cfgs.append(("upd%d-%s+%s" % (np_, a, b), m, np_, 1, [a, b]))
             if not thorough:
                 cfgs.append(("upd-3p", m, 3, 1, ["pids"]))
         elif m == "upd2":
